@@ -57,6 +57,17 @@ AddRef(ok)    == /\ UNCHANGED <<s, r, cap, rr>>
 NextRef(ok)   == /\ UNCHANGED <<s, r, cap, nrefs>>
                  /\ IF rr < nrefs THEN ok /\ rr' = rr + 1 ELSE ~ok /\ rr' = rr
 
+\* On(n) / Off(n): one bit set in place. A position at or beyond the write cursor is not (yet) part of the bit string: no
+\* visible effect, and what is written there later is what that write says; beyond the capacity: an error.
+SetBit(n, val, ok) == /\ UNCHANGED <<r, cap, nrefs, rr>>
+                      /\ IF n >= 0 /\ n < cap THEN ok /\ s' = (IF n < Len(s) THEN [s EXCEPT ![n + 1] = val] ELSE s)
+                         ELSE ~ok /\ s' = s
+\* writing to a by-value copy of the bit string (RawBitString(), struct assignment): nothing of the original changes
+Alias == UNCHANGED bvars
+\* CopyRemaining: a new cell holding the unread bits and the unread references in their order; the original is untouched.
+\* (references are named by the order they were added: 1, 2, ...)
+CopyRemainingOut == [bits |-> SubSeq(s, r + 1, Len(s)), refs |-> [i \in 1..(nrefs - rr) |-> rr + i]]
+
 \* ------------------------------------------------- read results (pure, at s/r)
 ReadUintOut(w)    == Window(w)                            \* = UBits(result, w)
 ReadBitsOut(n)    == Window(n)
